@@ -44,6 +44,31 @@ def is_oob(a):
     return a == "OOB" or a.endswith("OOB")
 
 
+def data_view_cases(res, model, replay_cases):
+    """container operations on <data> views that are shorter than what their length prefix says (view ending inside the
+    prefix, or inside the payload while the prefix already holds the length being assigned): the Dyn.v model of the
+    code with its size checks decides whether the handler must fire (cases and judgement shared with the C13 check)"""
+    import c13
+    found = False
+    if replay_cases is None:
+        dcases = [c for c in c13.gen_cases(SplitMix64(res.seed), "quick") if c.kind in ("short-view", "stale-length")]
+    else:
+        dcases = [c13.Case.from_json(j) for j in replay_cases]
+    res.extra["data_view_container_cases"] = len(dcases)
+    try:
+        dexe = cached_cpp("c13_harness_char", os.path.join(VERIF, "cpp/c13_harness.cpp"), std="c++17", cxx="g++",
+                          flags=("-O1",), defines=("C13_ELEM=char", "SBEPP_ENABLE_ASSERTS_WITH_HANDLER"))
+        dm = c13.par_lines(model.path, [c.model_line("cur", 1) for c in dcases], 16)
+        di = c13.par_lines(dexe, [c.impl_line(1) for c in dcases], 8)
+        for c, ml, il in zip(dcases, dm, di):
+            if c13.check_case(res, c, ml, il, "g++ -std=c++17 -O1 asserts elem=char", 1):
+                found = True
+    except (BuildError, RuntimeError) as e:
+        found |= res.violation("harness-build:c13-cases", "the <data> view container cases could not be run",
+                               {"no_failing_input": True, "correspondence": "c13_harness.cpp", "error": str(e)[-2000:]})
+    return found
+
+
 def run(res, replay=None):
     rng = SplitMix64(res.seed + 10)
     res.rule = ("size checks enabled (assertion handler), buffer [p, p+n) ending on a PROT_NONE page. (a) reference-encoder "
@@ -62,6 +87,11 @@ def run(res, replay=None):
     ok_proof = proof_step(res)
     model = Model()
     found = False
+    if replay and replay.get("cases") and replay["cases"][0].get("kind") in ("short-view", "stale-length"):
+        found = data_view_cases(res, model, replay["cases"])
+        if not ok_proof:
+            proof_failure_violation(res, found)
+        return res.finish(trusted=["Dyn.v model of dynamic_array_ref with its size checks; cpp/c13_harness.cpp"])
     nschemas = 4 if res.tier == "quick" else 24
     nimgs = 2 if res.tier == "quick" else 6
     cfgs = [("g++", "c++11", ("-O1",), CHK), ("g++", "c++20", ("-O1",), CHK)]
@@ -337,6 +367,8 @@ def run(res, replay=None):
                     elif cm != "ASSERT" and b2 != cm:
                         found |= res.violation("value:hostile-length:%s" % mm.name[2:],
                                                "`%s` with d1.length=%d: implementation %s, checked model %s" % (op, hv, b2, cm), base)
+    if not replay:
+        found |= data_view_cases(res, model, None)
     res.extra["outcomes"] = dist
     res.extra["conservative_checks"] = {
         "meaning": "library (and checked model) assert although every byte the operation READS is inside the buffer: the failing "
